@@ -76,7 +76,7 @@ def confusion_matrix_sym(y_true, y_pred, *, labels=None, sample_weight=None, nor
             rs = core.zsum([cm[i, j].e for j in range(k)])
             if c.decide(rs == 0):
                 for j in range(k):
-                    cm[i, j] = 0.0
+                    cm[i, j] = SReal(z3.RealVal(0))  # a proxy, not a python float: object columns must keep IEEE division
             else:
                 for j in range(k):
                     cm[i, j] = SReal(cm[i, j].e / rs)
